@@ -80,8 +80,10 @@ def _serialize_element(
             prop.source if prop.source is not None else name: prop
             for name, prop in schema["properties"].items()
         }
-        schema["required"] = [
-            name for name, prop in schema["properties"].items() if prop.required
+        schema["required"] = list(schema.get("required", [])) + [
+            name
+            for name, prop in schema["properties"].items()
+            if prop.required and name not in schema.get("required", [])
         ]
     if not schema.get("required", True):
         del schema["required"]
